@@ -672,9 +672,10 @@ class IkeSa(object):
         payload_nonce = response.get_payload(Payload.Type.NONCE, encrypted)
         payload_ke = response.get_payload(Payload.Type.KE, encrypted)
 
-        # select the peers proposal.
-        if not payload_sa.proposals[0].is_subset(self.chosen_proposal):
-            raise NoProposalChosen('Responder proposal is not a subset of what we sent')
+        # select the peers proposal: it has to be a complete suite (one transform of every type we offered), and nothing else
+        intersection = self.chosen_proposal.intersection(payload_sa.proposals[0])
+        if intersection is None or intersection != payload_sa.proposals[0]:
+            raise NoProposalChosen('Responder proposal is not a complete suite drawn from what we sent')
         self.chosen_proposal = payload_sa.proposals[0]
 
         # update peer spi (take it from the payload SA if old_sa_d is not none ie. IKE_SA rekey)
